@@ -271,6 +271,94 @@ def case_project(arg):
             "sample": {"seed": seed, "docstyle": docstyle, "markers": marks, "source_head": next(iter(texts.values()))[:1500]}}
 
 
+def run_site(item):
+    from vf import site
+
+    return site.run_in_process(item["root"])
+
+
+def is_subseq(need, have):
+    it = iter(have)
+    return all(any(x == w for x in it) for w in need)
+
+
+def case_site(seed):
+    """The generated pages: every word of an entity's comment is shown, in order, where the entity is documented - also for entities
+    without a page of their own (components, arguments, local variables and types, internal procedures, bindings), whose text is
+    placed by the templates (summary or full text)."""
+    from vf import site
+
+    rng = random.Random(seed)
+    files = genmodels.gen_project(seed, docs=True, nfiles=rng.randint(1, 2), rich_docs=True)
+    expected = {}
+    for f in files:
+        expected.update(fgen.expect_file(f, f"{f.name}.f90"))
+    base = core.mktemp("vf_c03s_")
+    texts = {}
+    display = rng.choice([["public", "private", "protected"], ["public", "private", "protected"], ["public", "protected"]])
+    try:
+        src = os.path.join(base, "src")
+        os.makedirs(src)
+        lay = layout.Layout(seed, plain=True)
+        for f in files:
+            texts[f.name] = lay.free(fgen.render_file(f, fgen.Style(seed + 1)))
+            open(os.path.join(src, f.name + ".f90"), "w").write(texts[f.name])
+        opts = {"project": f"S{seed}", "src_dir": "./src", "output_dir": "./doc", "preprocess": False, "parallel": 0, "graph": False, "search": False, "incl_src": False,
+                "display": display, "proc_internals": True, "quiet": True, "source": False}
+        site.write_project_file(base, opts)
+        st, r = core.run_alone(run_site, {"root": base}, timeout=300)
+        if st != "ok" or r["outcome"] != "ok":
+            return {"viol": [{"kf": {"kind": "ford_failed" if st == "ok" else "harness_" + st, "error": str((r or {}).get("error", r))[:50] if st == "ok" else st}, "w": {"detail": str(r)[-1200:], "seed": seed, "files": texts, "case": "site"}}], "n": 0, "kinds": []}
+        pages = {}
+        out = os.path.join(base, "doc")
+        for dp, dn, fns in os.walk(out):
+            for fn_ in fns:
+                if fn_.endswith(".html"):
+                    # (no source listings in this configuration: highlighted blocks are code blocks of the comments themselves)
+                    pages[os.path.relpath(os.path.join(dp, fn_), out)] = docgrammar.tracer_seq(docgrammar.html_text(open(os.path.join(dp, fn_), encoding="utf-8", errors="replace").read()))
+    finally:
+        shutil.rmtree(base, ignore_errors=True)
+    where = {}
+    for rel, seq in pages.items():
+        for w in set(seq):
+            where.setdefault(w, []).append(rel)
+    viol, n, kinds = [], 0, set()
+    all_shown = len(display) == 3
+    for path, rec in expected.items():
+        if "doc" not in rec:
+            continue
+        emeta, ebody = split_expected(rec["doc"])
+        if len(ebody) < 2:
+            continue
+        on = sorted({p for w in ebody for p in where.get(w, ())})
+        kind = path.rsplit("/", 1)[-1].split(":")[0]
+        segs = [x.split(":")[0] for x in path.split("/")]
+        nproc = sum(1 for x in segs if x in PROC_SEGS)
+        own_page = kind in PAGE_KINDS and nproc <= (1 if kind in PROC_SEGS else 0)
+        if kind == "file" or nproc >= 2 or (kind not in PROC_SEGS and nproc >= 1 and segs[-2] not in PROC_SEGS and segs[-2] != "type"):
+            continue  # internal procedures are summarised on their host's page, and what they contain is not shown; no file pages in this configuration
+        if nproc >= 2 or (nproc == 1 and kind not in PROC_SEGS and "type" in segs[:-1] and segs.index("type") < len(segs) - 2):
+            continue
+        if "summary" in {k.lower() for k in emeta} and not own_page:
+            continue  # an explicit summary is what is shown for an entity without a page of its own
+        if not on:
+            if all_shown and kind not in SITE_MAY_BE_ABSENT:
+                viol.append({"kf": {"kind": "documentation_rendered_nowhere", "entity": kind, "display_all": all_shown}, "w": {"path": path, "expected": ebody, "seed": seed, "files": texts, "case": "site"}})
+            continue
+        n += 1
+        kinds.add(kind)
+        if not any(is_subseq(ebody, pages[p]) for p in on):
+            best = max(on, key=lambda p: sum(1 for w in ebody if w in pages[p]))
+            viol.append({"kf": {"kind": "documentation_rendered_incompletely", "entity": kind, "display_all": all_shown},
+                         "w": {"path": path, "expected": ebody, "pages": on[:5], "best_page": best, "shown_there": [w for w in pages[best] if w in ebody], "seed": seed, "files": texts, "case": "site"}})
+    return {"viol": viol, "n": n, "kinds": sorted(kinds)}
+
+
+SITE_MAY_BE_ABSENT = set()
+PROC_SEGS = {"function", "subroutine", "mpimpl", "ifacebody", "absinterface", "mpiface"}
+PAGE_KINDS = {"module", "submodule", "program", "blockdata", "type", "function", "subroutine", "mpimpl", "interface", "absinterface", "ifacebody", "namelist"}
+
+
 def convert_bodies(chunk):
     """Bodies straight through the real MetaMarkdown.convert (one process, many bodies)."""
     install_contract()
@@ -310,6 +398,11 @@ def main():
     if rp:
         w = json.load(open(rp))["witness"]
         a = w.get("arg")
+        if w.get("case") == "site":
+            r = case_site(w["seed"])
+            bad = [v for v in r["viol"] if core.match_known(core.load_known(PID), v["kf"]) is None]
+            print("replay:", "VIOLATION" if bad else "held")
+            sys.exit(1 if bad else 0)
         if a is None:
             print("replay: body-level witness; input is in the file")
             sys.exit(1)
@@ -339,6 +432,17 @@ def main():
         run.seen("marker_style_x_markset", f"{a[1]}|{MARKSETS.index(a[2])}")
         for f in r["feats"]:
             run.seen("doc_features_generated", f)
+        for v in r["viol"]:
+            run.violation(v["kf"], v["w"])
+    # the generated pages
+    sseeds = [run.seed * 100003 + 500000 + i for i in range(500 if thorough else 60)]
+    for sd, (st, r) in zip(sseeds, core.fork_map(case_site, sseeds, per_case_fork=False, case_timeout=400, total_timeout=3400)):
+        if st != "ok":
+            run.inconc(f"site {st}: {str(r)[-300:]}")
+            continue
+        run.count("entity_comments_looked_up_in_generated_pages", r["n"])
+        for k in r["kinds"]:
+            run.seen("entity_kinds_looked_up_in_generated_pages", k)
         for v in r["viol"]:
             run.violation(v["kf"], v["w"])
     # body-level
@@ -381,7 +485,7 @@ def main():
 
         repo_tests.attach(run, PID)
     run.finish(floors={"evaluations": 1500, "distinct_nontrivial": 1000, "entities_docs_compared": 3000, "contract_evals_admonition_run": 3000, "namelist_member_docs_compared_with_default_display": 20,
-                       "marker_style_x_markset": 18, "doc_features_generated": 20})
+                       "marker_style_x_markset": 18, "doc_features_generated": 20, "entity_comments_looked_up_in_generated_pages": 600, "entity_kinds_looked_up_in_generated_pages": 10})
 
 
 if __name__ == "__main__":
